@@ -298,7 +298,10 @@ def _fromiter(I, fr, args, kwargs, n):
             if len(items) < c_:
                 raise _RaisedExc(Raised('ValueError', n))
             items = items[:c_]
-    return _array(items, X._dtype_tag(_arg(args, kwargs, 1, 'dtype', None)))
+    r = _array(items, X._dtype_tag(_arg(args, kwargs, 1, 'dtype', None)))
+    if getattr(r, 'dtype', None) in ('int', 'narrow', 'caller'):
+        fr.int_store(r, list(items), n)         # every item is converted to the element type
+    return r
 
 
 class RClass:
@@ -400,8 +403,34 @@ def array_method(I, fr, b, name, args, kwargs, n):
         if name in ('argmax', 'argmin') and not args and not kwargs and 'numpy.' + name in I.native:
             return True, I.native['numpy.' + name](I, fr, [b], {}, n)
         if name == 'reshape':
+            if set(kwargs) - {'order'} or kwargs.get('order', 'C') not in ('C', 'F'):
+                raise Unsupported('reshape(%s)' % ', '.join(sorted(kwargs)), n)
+            fortran = kwargs.get('order', 'C') == 'F'
             shape = args[0].items if len(args) == 1 and isinstance(args[0], ListV) else list(args)
             dims = [_as_int(x, n) for x in shape]
+            if fortran:
+                # column-major: the first index runs fastest. Only the common case is modelled - a flat array laid
+                # out into two dimensions
+                if any(isinstance(x, ListV) for x in b.items) or len(dims) != 2:
+                    if len(dims) == 1 and not any(isinstance(x, ListV) for x in b.items):
+                        pass                                    # 1-D to 1-D: the order does not matter
+                    else:
+                        raise Unsupported("reshape(order='F') other than 1-D to 2-D", n)
+                else:
+                    r_, c_ = dims
+                    tot = len(b.items)
+                    if r_ == -1 and c_ > 0:
+                        r_ = tot // c_
+                    if c_ == -1 and r_ > 0:
+                        c_ = tot // r_
+                    if r_ * c_ != tot:
+                        raise _RaisedExc(Raised('ValueError', n))
+                    dt_ = getattr(b, 'dtype', None)
+                    rf = _array((_array([b.items[j * r_ + i] for j in range(c_)], dt_) for i in range(r_)), dt_)
+                    rf.frozen_view = True       # a strided view in numpy: a store through it is not modelled
+                    for row_ in rf.items:
+                        row_.frozen_view = True
+                    return True, rf
             flat = []
 
             def fl(v):
